@@ -47,6 +47,7 @@ def run(ctx):
     confs = [((128, 0, 0, 0, 0, 0, 0, 0, 0), 40, 15), ((80, 0, 0, 0, 0, 0, 0, 0, 0), 30, 15),
              ((0, 1025, 1, 3, 7, 8, 2, A_BK, A_KS), 10, 3), ((0, 3, 1, 2, 10, 8, 2, A_BK, A_KS), 30, 15), ((0, 8, 2, 2, 10, 4, 4, A_BK, A_KS), 20, 7),
              ((0, 4, 1, 22, 1, 8, 2, A_BK, A_KS), 12, 15), ((0, 3, 1, 1, 16, 8, 2, 4, A_KS), 12, 15),      # extreme gadget layouts: Bgbit = 1 (digits in {-1,0}), l = 1
+             ((0, 4, 1, 2, 13, 8, 2, A_BK // 64, A_KS), 12, 15), ((0, 6, 1, 2, 16, 8, 2, A_BK // 64, A_KS), 12, 15),      # large gadget bases (digits up to 2^12, 2^15) in every variant
              ((-1, 1024, 1, 3, 7, 8, 2, A_BK, A_KS), 4, 15)]      # lambda = -1: the in/out LWE parameters are the extracted-sample parameters object itself (n = k*N)
     if thorough:
         confs = [((128, 0, 0, 0, 0, 0, 0, 0, 0), 2048, 15), ((80, 0, 0, 0, 0, 0, 0, 0, 0), 2048, 15),
@@ -93,13 +94,24 @@ def run(ctx):
             pt = rng.choice([N - 1, 2 * N - 1])
             b = vlib.w32(((pt + d) % (2 * N)) * 2**21 + rng.randrange(-2**19, 2**19))
             cases.append((a, b, 2**29, 'mask ties, aimed p=%d' % pt))
+        # e) mask coefficients whose rounded value is a multiple of a power of two (16, 256, N) on key bits that are set: the first rotations act on
+        #    the constant test vector, where X^a - 1 has min(a, 2N-a) equal coefficients - structured digit polynomials (all digits equal, sums of
+        #    squares that are multiples of 2^32 for large bases)
+        for rep in range(8 if not thorough else 48):
+            a = [0] * n if rep % 2 == 0 else [rng.randrange(-2**31, 2**31) for _ in range(n)]
+            for i in (ones[:1] + rng.sample(ones, min(len(ones), rng.choice([0, 1, 2])))) if ones else []:
+                a[i] = vlib.w32(rng.choice([N, 16 * rng.randrange(1, N // 8), 256 * rng.randrange(1, N // 128), 4 * rng.randrange(1, N // 2)]) * 2**21 + rng.randrange(-2**19, 2**19))
+            d = sum(rnd2N(ai)[0] for ai, si in zip(a, s) if si)
+            pt = rng.choice([0, N - 1, N, 2 * N - 1, rng.randrange(2 * N)])
+            b = vlib.w32(((pt + d) % (2 * N)) * 2**21 + rng.randrange(-2**19, 2**19))
+            cases.append((a, b, rng.choice([2**29, 2**29, 2**30]), 'power-of-two rotations, aimed p=%d' % pt))
         # model predictions (cheap: no ring arithmetic)
         ml = ['bootp %d %d %s %s %d' % (N, n, fmt(s), fmt(a), b) for (a, b, mu, kind) in cases]
         mo = vlib.run_model(ml, 'fast', timeout=1800)
         # (bit 16 of the variant mask, on three cases per key set: the same bootstrappings through a stand-alone FFT key whose source
         #  LweBootstrappingKey has been re-keyed and deleted)
         standalone = set(rng.sample(range(len(cases)), min(3, len(cases))))
-        il = ['fullcase %s %d %d %s %d' % (spec, mu, (vmask if (i % 4 == 0 or kind.startswith('aimed') or kind.startswith('mask ties')) else (vmask & 5) or 1) + (16 if i in standalone else 0), fmt(a), b) for i, (a, b, mu, kind) in enumerate(cases)]
+        il = ['fullcase %s %d %d %s %d' % (spec, mu, (vmask if (i % 4 == 0 or kind.startswith('aimed') or kind.startswith('mask ties') or kind.startswith('power')) else (vmask & 5) or 1) + (16 if i in standalone else 0), fmt(a), b) for i, (a, b, mu, kind) in enumerate(cases)]
         io = vlib.run_lines(exe, il, timeout=7200)
         for (a, b, mu, kind), line, o, m in zip(cases, il, io, mo):
             ctx.count((spec, tuple(a[:8]), b, mu)); nfull += 1
